@@ -71,6 +71,9 @@ class Sandbox:
             full = os.path.join(self.root, path)
             if content is None:
                 os.makedirs(full, exist_ok=True)
+            elif isinstance(content, tuple) and content[0] == 'symlink':   # harness-only (never sent to the model)
+                os.makedirs(os.path.dirname(full) or self.root, exist_ok=True)
+                os.symlink(content[1], full)
             else:
                 os.makedirs(os.path.dirname(full) or self.root, exist_ok=True)
                 with open(full, 'wb') as f:
@@ -81,6 +84,8 @@ class Sandbox:
         for d, _, files in os.walk(self.root):
             for fn in files:
                 full = os.path.join(d, fn)
+                if os.path.islink(full):
+                    continue
                 with open(full, 'rb') as f:
                     out[os.path.relpath(full, self.root)] = f.read()
         return out
